@@ -166,10 +166,13 @@ impl Report {
             "wall_s": wall,
             "violations": unlisted.len(),
         });
-        let edir = root.join("evidence");
-        let _ = std::fs::create_dir_all(&edir);
-        let epath = edir.join(format!("{}.json", self.property));
-        std::fs::write(&epath, serde_json::to_string_pretty(&ev).unwrap()).expect("write evidence");
+        // a replay re-executes one recorded case: it is not a coverage run and leaves the evidence alone
+        if std::env::var("BPV_REPLAY").is_err() {
+            let edir = root.join("evidence");
+            let _ = std::fs::create_dir_all(&edir);
+            let epath = edir.join(format!("{}.json", self.property));
+            std::fs::write(&epath, serde_json::to_string_pretty(&ev).unwrap()).expect("write evidence");
+        }
         println!(
             "{} tier={} evaluations={} nontrivial={} violations={} known={} wall={:.1}s histogram={:?}",
             self.property,
